@@ -320,6 +320,9 @@ func (t *Task) runWithLocking(queued bool) {
 	// This must be done here while holding the lock: a Schedule() that arrives
 	// after this point is meant for the next execution and must not be erased.
 	t.executeAt = time.Time{}
+	// Keep the context of this execution for the queue slot watcher below:
+	// t.ctx is replaced as soon as the execution has finished.
+	execCtx := t.ctx
 	t.lock.Unlock()
 	vhook.AtS("modules.task.cleared", t.name)
 
@@ -357,7 +360,7 @@ func (t *Task) runWithLocking(queued bool) {
 	go t.executeWithLocking()
 	go func() {
 		select {
-		case <-t.ctx.Done():
+		case <-execCtx.Done():
 		case <-time.After(maxExecutionWait):
 		}
 		// complete queue worker (early) to allow next worker
